@@ -325,15 +325,16 @@ static const uint8_t SA4[] = { 0x30,0x0c,0x06,0x08,0x2a,0x81,0x1c,0xcf,0x55,0x01
 static const uint8_t SA5[] = { 0x30,0x05,0x06,0x03,0x2a,0x03,0x04 };
 static const uint8_t SA6[] = { 0x30,0x0c,0x06,0x08,0x2a,0x86,0x48,0xce,0x3d,0x04,0x03,0x02,0x05,0x00 };
 static const uint8_t SA7[] = { 0x30,0x0d,0x06,0x08,0x2a,0x81,0x1c,0xcf,0x55,0x01,0x83,0x75,0x02,0x01,0x05 };
-static const struct { const uint8_t *p; size_t n; } SALG[8] = { { SA0, sizeof SA0 }, { SA1, sizeof SA1 }, { SA2, sizeof SA2 }, { SA3, sizeof SA3 },
-	{ SA4, sizeof SA4 }, { SA5, sizeof SA5 }, { SA6, sizeof SA6 }, { SA7, sizeof SA7 } };
+static const uint8_t SA8[] = { 0x30,0x0d,0x06,0x0b,0x2a,0x81,0x1c,0xcf,0x55,0x01,0x90,0x80,0x80,0x83,0x75 };   /* last arc 501 + 2^32 */
+static const struct { const uint8_t *p; size_t n; } SALG[9] = { { SA0, sizeof SA0 }, { SA1, sizeof SA1 }, { SA2, sizeof SA2 }, { SA3, sizeof SA3 },
+	{ SA4, sizeof SA4 }, { SA5, sizeof SA5 }, { SA6, sizeof SA6 }, { SA7, sizeof SA7 }, { SA8, sizeof SA8 } };
 static int inner_oid(int id) { return id == 0 ? OID_sm2sign_with_sm3 : id == 2 ? OID_ecdsa_with_sha256 : id == 3 ? OID_rsasign_with_sha256 : id == 4 ? OID_rsasign_with_sm3 : -1; }
 static void do_sigalg(char **w) {
 	const char *kind = w[1]; int inner = atoi(w[2]), outer = atoi(w[3]); const char *mode = w[4];
 	uint8_t name[256]; size_t namelen = 0; uint8_t serial[8] = { 9, 8, 7, 6, 5, 4, 3, 2 };
 	uint8_t *tbs = NULL, *p; size_t tbslen = 0, len = 0, clen, hl = 0; uint8_t sig[SM2_MAX_SIGNATURE_SIZE]; size_t siglen = 0; SM2_SIGN_CTX sctx;
 	blob_t obj = { NULL, 0 }; uint8_t *q; int ioid = inner_oid(inner);
-	if (outer < 0 || outer > 7 || (ioid < 0 && strcmp(kind, "req")) || x509_name_set(name, &namelen, sizeof name, "CN", NULL, NULL, "VERIF", NULL, "sigalg") != 1) { printf("ERR args"); return; }
+	if (outer < 0 || outer > 8 || (ioid < 0 && strcmp(kind, "req")) || x509_name_set(name, &namelen, sizeof name, "CN", NULL, NULL, "VERIF", NULL, "sigalg") != 1) { printf("ERR args"); return; }
 	if (!strcmp(kind, "cert")) {
 		if (x509_tbs_cert_to_der(X509_version_v3, serial, 8, ioid, name, namelen, 1699990000, 1700090000, name, namelen, &keys[1], NULL, 0, NULL, 0, NULL, 0, NULL, &len) != 1) { printf("ERR tbs"); return; }
 		tbs = malloc(len); p = tbs;
@@ -466,6 +467,156 @@ static void do_threads(const char *kind, long iters) {
 	printf("mismatches=%ld", t[0].mismatches + t[1].mismatches);
 }
 
+/* ------------------------------------------------------------------ builder order (wave 4)
+ * every extension builder of x509_ext.h / x509_crl.h, with fixed arguments per variant, alone (extsolo) and at every place of a
+ * list (extlist); the list is parsed back element by element and carried through a certificate / CRL. */
+static const char *COVERED_BUILDERS =
+	"x509_exts_add_authority_key_identifier x509_exts_add_default_authority_key_identifier x509_exts_add_subject_key_identifier "
+	"x509_exts_add_subject_key_identifier_ex x509_exts_add_key_usage x509_exts_add_certificate_policies x509_exts_add_policy_mappings "
+	"x509_exts_add_subject_alt_name x509_exts_add_issuer_alt_name x509_exts_add_subject_directory_attributes x509_exts_add_name_constraints "
+	"x509_exts_add_policy_constraints x509_exts_add_basic_constraints x509_exts_add_ext_key_usage x509_exts_add_crl_distribution_points_ex "
+	"x509_exts_add_crl_distribution_points x509_exts_add_inhibit_any_policy x509_exts_add_freshest_crl x509_exts_add_authority_info_access "
+	"x509_exts_add_sequence "
+	"x509_crl_exts_add_authority_key_identifier x509_crl_exts_add_default_authority_key_identifier x509_crl_exts_add_issuer_alt_name "
+	"x509_crl_exts_add_crl_number_ex x509_crl_exts_add_crl_number x509_crl_exts_add_delta_crl_indicator x509_crl_exts_add_issuing_distribution_point "
+	"x509_crl_exts_add_freshest_crl x509_crl_exts_add_authority_info_acess "
+	"x509_crl_entry_exts_to_der x509_crl_reason_ext_to_der x509_invalidity_date_ext_to_der x509_cert_issuer_ext_to_der x509_crl_entry_ext_to_der x509_crl_ext_to_der";
+static int add_builder(int crl, const char *name, int var, uint8_t *b, size_t *l, size_t max) {
+	uint8_t raw[64]; size_t i; char uri[48], uri2[48]; static const int eku1[] = { OID_kp_server_auth, OID_kp_client_auth }, eku2[] = { OID_kp_ocsp_signing };
+	for (i = 0; i < sizeof raw; i++) raw[i] = (uint8_t)(0x30 + ((i * 7 + var * 13) & 0x0f));
+	snprintf(uri, sizeof uri, "http://crl%d.example/%s.crl", var, name); snprintf(uri2, sizeof uri2, "http://ocsp%d.example/%s", var, name);
+	if (!crl) {
+		if (!strcmp(name, "aki")) return x509_exts_add_authority_key_identifier(b, l, max, -1, raw, 20 + (size_t)var, NULL, 0, NULL, 0);
+		if (!strcmp(name, "daki")) return x509_exts_add_default_authority_key_identifier(b, l, max, &keys[1 + var]);
+		if (!strcmp(name, "ski")) return x509_exts_add_subject_key_identifier(b, l, max, -1, raw, 20 + (size_t)var * 10);
+		if (!strcmp(name, "skiex")) return x509_exts_add_subject_key_identifier_ex(b, l, max, var ? 0 : -1, &keys[1 + var]);
+		if (!strcmp(name, "ku")) return x509_exts_add_key_usage(b, l, max, X509_critical, var ? 96 : 1);
+		if (!strcmp(name, "cp")) return x509_exts_add_certificate_policies(b, l, max, -1, raw, 10 + (size_t)var);
+		if (!strcmp(name, "pm")) return x509_exts_add_policy_mappings(b, l, max, X509_critical, raw, 12 + (size_t)var);
+		if (!strcmp(name, "san")) return x509_exts_add_subject_alt_name(b, l, max, var ? X509_critical : -1, raw, 30 + (size_t)var);
+		if (!strcmp(name, "ian")) return x509_exts_add_issuer_alt_name(b, l, max, -1, raw, 9 + (size_t)var);
+		if (!strcmp(name, "sda")) return x509_exts_add_subject_directory_attributes(b, l, max, -1, raw, 17 + (size_t)var);
+		if (!strcmp(name, "nc")) return x509_exts_add_name_constraints(b, l, max, X509_critical, raw, 22 + (size_t)var, var ? raw : NULL, var ? 5 : 0);
+		if (!strcmp(name, "pc")) return x509_exts_add_policy_constraints(b, l, max, X509_critical, 1 + var, var ? 2 : -1);
+		if (!strcmp(name, "bc")) return x509_exts_add_basic_constraints(b, l, max, X509_critical, 1, var ? 3 : -1);
+		if (!strcmp(name, "eku")) return x509_exts_add_ext_key_usage(b, l, max, -1, var ? eku2 : eku1, var ? 1 : 2);
+		/* the 4th/5th parameters are (oid, critical) or (critical, oid) according to the header the harness is compiled against;
+		   run.py reads the prototype and asks for the matching call */
+		if (!strcmp(name, "crldpex")) return x509_exts_add_crl_distribution_points_ex(b, l, max, OID_ce_freshest_crl, -1, uri, strlen(uri), NULL, 0);
+		if (!strcmp(name, "crldpexh")) return x509_exts_add_crl_distribution_points_ex(b, l, max, -1, OID_ce_freshest_crl, uri, strlen(uri), NULL, 0);
+		if (!strcmp(name, "crldp")) return x509_exts_add_crl_distribution_points(b, l, max, -1, uri, strlen(uri), NULL, 0);
+		if (!strcmp(name, "iap")) return x509_exts_add_inhibit_any_policy(b, l, max, X509_critical, var);
+		if (!strcmp(name, "fcrl")) return x509_exts_add_freshest_crl(b, l, max, -1, raw, 14 + (size_t)var);
+		if (!strcmp(name, "aia")) return x509_exts_add_authority_info_access(b, l, max, 0, uri, strlen(uri), var ? uri2 : NULL, var ? strlen(uri2) : 0);
+		if (!strcmp(name, "seq")) return x509_exts_add_sequence(b, l, max, OID_ce_certificate_policies, -1, raw, 8 + (size_t)var);
+	} else {
+		if (!strcmp(name, "aki")) return x509_crl_exts_add_authority_key_identifier(b, l, max, -1, raw, 20 + (size_t)var, NULL, 0, NULL, 0);
+		if (!strcmp(name, "daki")) return x509_crl_exts_add_default_authority_key_identifier(b, l, max, &keys[1 + var]);
+		if (!strcmp(name, "ian")) return x509_crl_exts_add_issuer_alt_name(b, l, max, -1, raw, 11 + (size_t)var);
+		if (!strcmp(name, "crlnumex")) return x509_crl_exts_add_crl_number_ex(b, l, max, OID_ce_crl_number, -1, 300 + var);
+		if (!strcmp(name, "crlnum")) return x509_crl_exts_add_crl_number(b, l, max, -1, 5 + var);
+		if (!strcmp(name, "delta")) return x509_crl_exts_add_delta_crl_indicator(b, l, max, X509_critical, 2 + var);
+		if (!strcmp(name, "idp")) return x509_crl_exts_add_issuing_distribution_point(b, l, max, X509_critical, uri, strlen(uri), var, -1, -1, var ? -1 : 1, -1);
+		if (!strcmp(name, "fcrl")) return x509_crl_exts_add_freshest_crl(b, l, max, -1, uri, strlen(uri), NULL, 0);
+		if (!strcmp(name, "aia")) return x509_crl_exts_add_authority_info_acess(b, l, max, 0, uri, strlen(uri), var ? uri2 : NULL, var ? strlen(uri2) : 0);
+	}
+	return -9;
+}
+static void do_extsolo(int crl, char *tok) {
+	uint8_t b[512]; size_t l = 0; char *dot = strchr(tok, '.'); int var = dot ? atoi(dot + 1) : 0; if (dot) *dot = 0;
+	if (add_builder(crl, tok, var, b, &l, sizeof b) != 1) { printf("ERR"); return; }
+	puthex(b, l);
+}
+static void do_extlist(int crl, char *list) {
+	size_t max = 4096, l = 0, n = 0; uint8_t *b = malloc(max); char *save = NULL, *t; const uint8_t *d; size_t dl; char each[1024]; size_t el = 0;
+	for (t = strtok_r(list, ",", &save); t; t = strtok_r(NULL, ",", &save)) {
+		char *dot = strchr(t, '.'); int var = dot ? atoi(dot + 1) : 0; if (dot) *dot = 0;
+		if (add_builder(crl, t, var, b, &l, max) != 1) { printf("ERR build %s", t); free(b); return; }
+	}
+	printf("list="); puthex(b, l);
+	d = b; dl = l; each[0] = 0;
+	while (dl) {
+		int oid, crit = -9; uint32_t nodes[32]; size_t nc; const uint8_t *v; size_t vl; int r;
+		r = crl ? x509_crl_ext_from_der_ex(&oid, nodes, &nc, &crit, &v, &vl, &d, &dl) : x509_ext_from_der(&oid, nodes, &nc, &crit, &v, &vl, &d, &dl);
+		if (r != 1) { printf(" parse=ERR-at-%zu", n); free(b); return; }
+		el += (size_t)snprintf(each + el, sizeof each - el, "%s%d:%zu", n ? ";" : "", crit, vl); n++;
+	}
+	printf(" n=%zu each=%s", n, each);
+	{	/* through a certificate / a CRL */
+		uint8_t name[256]; size_t namelen = 0; uint8_t serial[8] = { 1, 2, 3, 4, 5, 6, 7, 9 }; const uint8_t *ex2 = NULL; size_t ex2l = 0; int ok = 0;
+		if (x509_name_set(name, &namelen, sizeof name, "CN", NULL, NULL, "VERIF", NULL, "order") != 1) { printf(" obj=ERR"); free(b); return; }
+		if (!crl) {
+			size_t clen = 0; uint8_t *cert, *q;
+			if (x509_cert_sign_to_der(X509_version_v3, serial, 8, OID_sm2sign_with_sm3, name, namelen, 1699990000, 1700090000, name, namelen, &keys[1], NULL, 0, NULL, 0,
+				b, l, &keys[1], SM2_DEFAULT_ID, SM2_DEFAULT_ID_LENGTH, NULL, &clen) == 1) {
+				cert = malloc(clen); q = cert; clen = 0;
+				if (x509_cert_sign_to_der(X509_version_v3, serial, 8, OID_sm2sign_with_sm3, name, namelen, 1699990000, 1700090000, name, namelen, &keys[1], NULL, 0, NULL, 0,
+					b, l, &keys[1], SM2_DEFAULT_ID, SM2_DEFAULT_ID_LENGTH, &q, &clen) == 1
+					&& x509_cert_get_exts(cert, clen, &ex2, &ex2l) == 1 && ex2l == l && !memcmp(ex2, b, l)
+					&& x509_signed_verify(cert, clen, &keys[1], SM2_DEFAULT_ID, SM2_DEFAULT_ID_LENGTH) == 1) ok = 1;
+				free(cert);
+			}
+		} else {
+			buf_t iss = { name, namelen }, ex = { b, l }; blob_t none = { NULL, 0 }; blob_t c = issue_crl_raw(X509_version_v2, iss, 1699990000, 1700090000, none, ex, 1);
+			if (c.p && x509_crl_get_details(c.p, c.n, NULL, NULL, NULL, NULL, NULL, NULL, NULL, NULL, &ex2, &ex2l, NULL, NULL, NULL) == 1 && ex2l == l && !memcmp(ex2, b, l)
+				&& verify_crl(&c, name, namelen, 1, 0) == 1) ok = 1;   /* x509_crl_check refuses every critical extension, so it is not asked here */
+			free(c.p);
+		}
+		printf(" obj=%d", ok);
+	}
+	free(b);
+}
+/* CRL entry extensions: one composing function, parsed back */
+static void do_entryexts(char **w) {
+	int reason = atoi(w[1]); long long date = strtoll(w[2], NULL, 10); buf_t iss = hex2buf(w[3]); uint8_t b[512]; uint8_t *p = b; size_t l = 0;
+	int r2 = -9; time_t d2 = -9; const uint8_t *i2 = NULL; size_t i2l = 0; const uint8_t *cp; size_t cl;
+	if (x509_crl_entry_exts_to_der(reason, (time_t)date, iss.n ? iss.p : NULL, iss.n, &p, &l) != 1) { printf("ERR build"); free(iss.p); return; }
+	printf("der="); puthex(b, l);
+	cp = b; cl = l;
+	if (x509_crl_entry_exts_from_der(&r2, &d2, &i2, &i2l, &cp, &cl) != 1 || cl) printf(" parse=ERR");
+	else { printf(" reason=%d date=%lld issuer=", r2, (long long)d2); puthex(i2, i2l); }
+	free(iss.p);
+}
+
+/* ------------------------------------------------------------------ buffer reuse (wave 4)
+ * reusebuf <order of 1/2>: one heap buffer; for every digit d the CA certificate d (same length, other name and key) is copied
+ * into it IN PLACE, then both leaves and both CRLs are verified against that buffer and its subject is read back.
+ * Results must follow the bytes, not the (pointer, length) pair. */
+static void do_reusebuf(const char *order) {
+	uint8_t nm[3][256]; size_t nml[3]; blob_t ca[3], leaf[3], crl[3]; uint8_t *shared; int d, L; const char *o; buf_t none = { NULL, 0 };
+	uint8_t serial[8] = { 7, 7, 7, 7, 7, 7, 7, 7 }; blob_t norev = { NULL, 0 };
+	for (d = 1; d <= 2; d++) {
+		char cn[8]; size_t len = 0; uint8_t *q; buf_t iss;
+		snprintf(cn, sizeof cn, "CA%d", d);
+		if (x509_name_set(nm[d], &nml[d], sizeof nm[d], "CN", NULL, NULL, "VERIF", NULL, cn) != 1) { printf("ERR setup"); return; }
+		ca[d] = ca_cert_for(nm[d], nml[d], d);
+		leaf[d].p = NULL; leaf[d].n = 0;
+		if (!ca[d].p || x509_cert_sign_to_der(X509_version_v3, serial, 8, OID_sm2sign_with_sm3, nm[d], nml[d], 1699990000, 1700090000, nm[d], nml[d], &keys[3], NULL, 0, NULL, 0, NULL, 0,
+			&keys[d], SM2_DEFAULT_ID, SM2_DEFAULT_ID_LENGTH, NULL, &len) != 1) { printf("ERR setup"); return; }
+		leaf[d].p = malloc(len); q = leaf[d].p;
+		x509_cert_sign_to_der(X509_version_v3, serial, 8, OID_sm2sign_with_sm3, nm[d], nml[d], 1699990000, 1700090000, nm[d], nml[d], &keys[3], NULL, 0, NULL, 0, NULL, 0,
+			&keys[d], SM2_DEFAULT_ID, SM2_DEFAULT_ID_LENGTH, &q, &leaf[d].n);
+		iss.p = nm[d]; iss.n = nml[d];
+		crl[d] = issue_crl_raw(X509_version_v2, iss, 1699990000, 1700090000, norev, none, d);
+		if (!crl[d].p) { printf("ERR setup"); return; }
+	}
+	if (ca[1].n != ca[2].n) { printf("ERR lengths-differ"); return; }
+	shared = malloc(ca[1].n);
+	printf("len-equal=1");
+	for (o = order; *o; o++) {
+		const uint8_t *subj = NULL; size_t sl = 0; int who = 0;
+		d = *o == '2' ? 2 : 1;
+		memcpy(shared, ca[d].p, ca[d].n);
+		if (x509_cert_get_subject(shared, ca[d].n, &subj, &sl) == 1) who = (sl == nml[1] && !memcmp(subj, nm[1], sl)) ? 1 : (sl == nml[2] && !memcmp(subj, nm[2], sl)) ? 2 : 9;
+		printf(" %d:subject=%d", d, who);
+		for (L = 1; L <= 2; L++) printf(",leaf%d=%d/%d,crl%d=%d", L,
+			x509_cert_verify_by_ca_cert(leaf[L].p, leaf[L].n, shared, ca[d].n, SM2_DEFAULT_ID, SM2_DEFAULT_ID_LENGTH) == 1,
+			x509_signed_verify_by_ca_cert(leaf[L].p, leaf[L].n, shared, ca[d].n, SM2_DEFAULT_ID, SM2_DEFAULT_ID_LENGTH) == 1, L,
+			x509_crl_verify_by_ca_cert(crl[L].p, crl[L].n, shared, ca[d].n, SM2_DEFAULT_ID, SM2_DEFAULT_ID_LENGTH) == 1);
+	}
+	free(shared); for (d = 1; d <= 2; d++) { free(ca[d].p); free(leaf[d].p); free(crl[d].p); }
+}
+
 /* ------------------------------------------------------------------ single-bit modifications */
 static void do_flipall(size_t nw, char **w) {
 	const char *kind = w[1]; size_t step = strtoul(w[2], NULL, 10), off = strtoul(w[3], NULL, 10), i; int b;
@@ -507,6 +658,11 @@ static void handle(size_t nw, char **w) {
 	else if (!strcmp(w[0], "extlen") && nw == 4) do_extlen(w);
 	else if (!strcmp(w[0], "sigalg") && nw == 5) do_sigalg(w);
 	else if (!strcmp(w[0], "crlcheck") && nw == 9) do_crlcheck(w);
+	else if (!strcmp(w[0], "reusebuf") && nw == 2) do_reusebuf(w[1]);
+	else if (!strcmp(w[0], "builders")) printf("%s", COVERED_BUILDERS);
+	else if (!strcmp(w[0], "extsolo") && nw == 3) do_extsolo(!strcmp(w[1], "r"), w[2]);
+	else if (!strcmp(w[0], "extlist") && nw == 4) do_extlist(!strcmp(w[1], "r"), w[2]);
+	else if (!strcmp(w[0], "entryexts") && nw == 4) do_entryexts(w);
 	else if (!strcmp(w[0], "threads") && nw == 3) do_threads(w[1], strtol(w[2], NULL, 10));
 	else if (!strcmp(w[0], "certck") && nw == 12) do_certck(w + 1);
 	else if (!strcmp(w[0], "flipall")) do_flipall(nw, w);
